@@ -21,7 +21,7 @@ FUNCTIONS = ["Processor.get_nodes and every segment handler (translated path / a
              "ensure_escaped/__str__", "NodeCoords"]
 STUBS = ["logger: real ConsolePrinter(quiet)"]
 OUTSIDE = ["virtual results (slices, collectors, name()) designate no single node and are skipped, as the property says",
-           "anchors/aliases in reported paths (anchored scalars are C-constructed objects: covered by C07's pools)",
+           "anchors reached through merge keys",
            "shapes/templates outside the catalogues; keys outside the punctuation pool"]
 ASSUMPTIONS = ["oracle is the document itself (object identity / equality of the node found at the reported place)"]
 
@@ -118,6 +118,13 @@ def check_result(doc, nc, both):
             again = [x for x in proc2.get_nodes(t, mustexist=True)]
         except YAMLPathException:
             return "reported path %r does not resolve" % t
+        if any(st is PathSegmentTypes.ANCHOR for (st, _a) in YAMLPath(t).escaped):
+            # a path that names the node by its anchor resolves once per place the node is aliased
+            if not again or any(x.node is not node for x in again):
+                return "reported path %r (by anchor) resolves to something other than the aliased node" % t
+            if not any(x.parent is parent and x.parentref == ref for x in again):
+                return "reported path %r (by anchor) does not include this place" % t
+            continue
         if len(again) != 1:
             return "reported path %r resolves to %d nodes" % (t, len(again))
         if not _same_obj(again[0].node, node) or (again[0].parent is not parent):
@@ -181,6 +188,31 @@ def punct_kw_ok(k: int, kw: int, a: int, b: int, slash: bool) -> bool:
     return _run(doc, path)
 
 
+_ESCAPABLE = set("\\./()[]^$% '\"&")
+
+
+def _esc(text):
+    return "".join(("\\" + ch if ch in _ESCAPABLE else ch) for ch in text)
+
+
+def punct_attr_ok(k: int, a: int, b: int, inv: bool, where: int, slash: bool) -> bool:
+    """A search on a NAMED attribute whose name holds an escapable character, applied directly to a hash, to an
+    Array-of-Hashes and to a hash of hashes (descendant form): the reported path re-resolves to the matched node."""
+    key = PKEYS[k]
+    op = "!>" if inv else ">"
+    if where == 0:
+        doc = cmap(("h", cmap((key, a), ("z", b), (key[0], cmap((key[-1], 7))))))
+        path = ("/h[" if slash else "h[") + _esc(key) + op + "0]"
+    elif where == 1:
+        doc = cmap(("w", cseq(cmap((key, a)), cmap((key, b)), cmap(("z", 1)))))
+        path = ("/w[" if slash else "w[") + _esc(key) + op + "0]"
+    else:
+        doc = cmap(("t", cmap(("x", cmap((key, a))), ("y", cmap((key, b))))))
+        path = ("/t/*[" if slash else "t.*[") + _esc(key) + op + "0]"
+    note(key=key, path=path, leaves=[a, b])
+    return _run(doc, path)
+
+
 def set_member_ok(k: int, slash: bool, via: int) -> bool:
     """A !!set member holding an escapable character, reached by key / wildcard / search, reports a path that re-resolves."""
     from vf.common import cset
@@ -198,7 +230,8 @@ QUICK = [("HOH", "hoh_desc_parent"), ("HOH", "hoh_desc_key"), ("AOHD", "desc_par
          ("L3", "kw_max"), ("AOH3", "idx_p_parent"), ("HOH", "star_parent"), ("MM", "p_parent"),
          ("AOH3", "p_parent_n"), ("L3", "idx"), ("ML3", "el_gt"), ("AOHX", "at_gt"), ("AOHD", "deep_p"), ("MM", "deep"),
          ("HOH", "star_at"), ("M3", "key_sw"), ("MINT", "k1"), ("LL", "star_idx"), ("AOHD", "at_desc"), ("SET", "p"),
-         ("AOHX", "p_el_gt"), ("LMIX", "deep"), ("AOH3", "at_gt_n"), ("HOH", "kw_maxp"), ("AOHX", "kw_distinctp")]
+         ("AOHX", "p_el_gt"), ("LMIX", "deep"), ("AOH3", "at_gt_n"), ("HOH", "kw_maxp"), ("AOHX", "kw_distinctp"),
+         ("LANC", "anc"), ("MANC", "anc_k"), ("AANC", "anc_n"), ("LANC", "star"), ("AANC", "p")]
 
 
 def _mk(shape, template, tier):
@@ -251,6 +284,20 @@ def shards(tier, seed):
                          [("k", "int"), ("a", "int"), ("b", "int"), ("slash", "bool")],
                          ["0 <= k < %d" % len(PKEYS), "-1 <= a <= 1 and -1 <= b <= 1"], family="punct_kw", budget=900,
                          desc="keyword #%d over a hash of hashes whose child keys hold an escapable character" % kw))
+    for where in range(3):
+        wdesc = ["a hash", "an Array-of-Hashes", "the children of a hash of hashes"][where]
+        if tier == "quick" and where > 0:
+            out.append(shard(PID, "punct_attr/%d" % where, "harness.c02", "punct_attr_ok(k, a, 1, inv, %d, slash)" % where,
+                             [("k", "int"), ("a", "int"), ("inv", "bool"), ("slash", "bool")],
+                             ["0 <= k < %d" % len(PKEYS), "-1 <= a <= 1"], family="punct_attr", budget=900,
+                             desc="search on a named attribute holding an escapable character, applied to " + wdesc))
+            continue
+        halves = [(0, len(PKEYS))] if where == 0 else [(0, 5), (5, 10), (10, len(PKEYS))]
+        for lo, hi in halves:
+            out.append(shard(PID, "punct_attr/%d/%d" % (where, lo), "harness.c02", "punct_attr_ok(k, a, b, inv, %d, slash)" % where,
+                             [("k", "int"), ("a", "int"), ("b", "int"), ("inv", "bool"), ("slash", "bool")],
+                             ["%d <= k < %d" % (lo, hi), "-1 <= a <= 1 and -1 <= b <= 1"], family="punct_attr", budget=1200,
+                             desc="search on a named attribute holding an escapable character, applied to " + wdesc))
     for via in range(3):
         out.append(shard(PID, "set_member/%d" % via, "harness.c02", "set_member_ok(k, slash, %d)" % via,
                          [("k", "int"), ("slash", "bool")], ["0 <= k < %d" % len(PKEYS)], family="set_member", budget=900,
